@@ -1,4 +1,5 @@
 from dataclasses import dataclass, field
+from ..SignalProcessing.periodic_functions import periodic_function
 
 @dataclass(frozen=True)
 class Component:
@@ -94,6 +95,7 @@ def complex_voltage_source(id: str, nodes: tuple[str, str], V: complex, Z: compl
         )
 
 def periodic_voltage_source(id: str, nodes: tuple[str, str], wavetype: str, V: float, w: float, phi: float = 0, R: float = 0) ->Component:
+    periodic_function(wavetype) # an unknown wave type is rejected here, not only by the analyses that happen to look it up
     if R < 0:
         raise ValueError('R must be greater than zero.')
     if w < 0:
@@ -140,6 +142,7 @@ def complex_current_source(id: str, nodes: tuple[str, str], I: complex, Y: compl
         )
 
 def periodic_current_source(id: str, nodes: tuple[str, str], wavetype: str, I: float, w: float, phi: float, G: float = 0) -> Component:
+    periodic_function(wavetype) # an unknown wave type is rejected here, not only by the analyses that happen to look it up
     if G < 0:
         raise ValueError('G must be greater than zero.')
     if w < 0:
